@@ -180,7 +180,15 @@ def run_case(case):
             # Python's recursion limit is reached by expressions nested some 55 levels deep (known finding);
             # the same exception on an ordinary input would be something else entirely
             longest = max(len(ln) for ln in text.replace("\r", "\n").split("\n"))
-            sig = "C15/RecursionError/" + ("very-long-nested-line" if longest > 200 else "ordinary-input")
+            depth = cur = 0
+            for ch in text:
+                if ch == "(":
+                    cur += 1
+                    depth = max(depth, cur)
+                elif ch == ")":
+                    cur -= 1
+            deep = longest > 200 or depth >= 40 or text.count("IF") >= 40
+            sig = "C15/RecursionError/" + ("very-long-nested-line" if deep else "ordinary-input")
         obs["viols"].append({"sig": sig, "detail": {"text": text[:1500], "kind": kind, "outcome": {k: res.get(k) for k in ("exc", "site", "stem", "msg")},
                                                     "flags": case.get("flags"), "stem": case.get("stem")}})
     if res.get("cpu", 0) > CPU_LIMIT:
